@@ -307,3 +307,44 @@ Definition should_retry_dial_no_deadline (same_ctx : bool) (e : dial_err) (owner
   | DErrCanceled => if same_ctx then false else owner_ctx_done
   | _ => false
   end.
+
+(* ---------------------------------------------------------------------------------------- *)
+(* 6. (round 6) The HPACK ENCODING context of an HTTP/2 connection: ClientConn.encodeHeaders  *)
+(*    of /repo/internal/http2/transport.go.  A request whose header list exceeds the peer's   *)
+(*    SETTINGS_MAX_HEADER_LIST_SIZE is refused in a counting pass BEFORE anything goes        *)
+(*    through the connection's shared encoder; every block that is encoded is also sent.      *)
+
+Definition list_size (fs : list hfield) : nat := fold_right (fun f a => snd f + a) 0 fs.
+
+Record hsend := mkHS { cl_tbl : list hfield; sv_tbl : list hfield }.
+
+Definition hsend_init : hsend := mkHS [] [].
+
+(* result: None = refused locally (errRequestHeaderListSize); Some (m, d) = the request is sent,
+   m = the fields the client's encoder state stands for, d = what the peer decodes *)
+Definition hsend_step (peer_max : nat) (s : hsend) (b : hblock) : hsend * option (list hfield * list hfield) :=
+  if peer_max <? list_size (meant (cl_tbl s) b) then (s, None)
+  else (mkHS (enc_after (cl_tbl s) b) (enc_after (sv_tbl s) b), Some (meant (cl_tbl s) b, meant (sv_tbl s) b)).
+
+(* the seeded variant: size checked after the fields went through the encoder *)
+Definition hsend_step_late (peer_max : nat) (s : hsend) (b : hblock) : hsend * option (list hfield * list hfield) :=
+  if peer_max <? list_size (meant (cl_tbl s) b) then (mkHS (enc_after (cl_tbl s) b) (sv_tbl s), None)
+  else (mkHS (enc_after (cl_tbl s) b) (enc_after (sv_tbl s) b), Some (meant (cl_tbl s) b, meant (sv_tbl s) b)).
+
+Fixpoint hsend_run (step : hsend -> hblock -> hsend * option (list hfield * list hfield)) (s : hsend)
+         (bs : list hblock) : list (option (list hfield * list hfield)) :=
+  match bs with
+  | [] => []
+  | b :: r => let (s', o) := step s b in o :: hsend_run step s' r
+  end.
+
+(* harness cases: per request of a scenario the sizes of its header fields and whether it
+   reached the origin (the Go oracle checks that the origin saw the caller's own fields) *)
+Fixpoint reqhdr_replay (peer_max : nat) (s : hsend) (obs : list (list nat * bool)) : bool :=
+  match obs with
+  | [] => true
+  | (sizes, sent) :: rest =>
+      let blk : hblock := [(0, map (fun z => HLit (0, z)) sizes)] in
+      let (s', o) := hsend_step peer_max s blk in
+      Bool.eqb (match o with Some _ => true | None => false end) sent && reqhdr_replay peer_max s' rest
+  end.
